@@ -51,7 +51,17 @@ Fixpoint root_of (s : schema) (c : nat) : nat :=
                   else root_of older c
   end.
 
-(* what EntityMeta.__init__ accepts: bases are older classes; all direct bases share one root (diamond rule) *)
+(* Discriminator.code2cls: filled in definition order by code2cls[value] = entity (a later class overwrites);
+   one dict per root (the discriminator attribute belongs to the root) *)
+Fixpoint code2cls (s : schema) (root : nat) (v : Z) : option nat :=
+  match s with
+  | [] => None
+  | d :: older => let id := length older in
+                  if (root_of s id =? root) && (d_discr d =? v)%Z then Some id else code2cls older root v
+  end.
+
+(* what EntityMeta.__init__ accepts: bases are older classes; all direct bases share one root (diamond rule); and, since fix
+   d645930, Discriminator.process_entity_inheritance refuses a value that code2cls already maps to another entity of the tree *)
 Fixpoint valid (s : schema) : bool :=
   match s with
   | [] => true
@@ -61,16 +71,8 @@ Fixpoint valid (s : schema) : bool :=
          | [] => true
          | b0 :: rest => forallb (fun b => root_of older b =? root_of older b0) rest
          end
+      && match code2cls older (root_of s (length older)) (d_discr d) with None => true | Some _ => false end
       && valid older
-  end.
-
-(* Discriminator.code2cls: filled in definition order by code2cls[value] = entity (a later class overwrites);
-   one dict per root (the discriminator attribute belongs to the root) *)
-Fixpoint code2cls (s : schema) (root : nat) (v : Z) : option nat :=
-  match s with
-  | [] => None
-  | d :: older => let id := length older in
-                  if (root_of s id =? root) && (d_discr d =? v)%Z then Some id else code2cls older root v
   end.
 
 (* _construct_discriminator_criteria_: the values of  IN (...)  *)
